@@ -360,6 +360,7 @@ prop(
     id="C05",
     stages=[dict(name="c05runs", pkg="c05", test="TestC05Runs", access=[RUN_ACCESS, WORKERS_ACCESS], timeout_quick=400, timeout_thorough=3000),
             dict(name="c05precancel", pkg="c05", test="TestC05PreCancelled", access=[RUN_ACCESS, WORKERS_ACCESS], timeout_quick=400, timeout_thorough=3000),
+            dict(name="c05cli", pkg="c05", test="TestC05CLI", access=[RUN_ACCESS, WORKERS_ACCESS], timeout_quick=400, timeout_thorough=3000),
             dict(name="c05window", pkg="c05", test="TestC05Window", access=[RUN_ACCESS, WORKERS_ACCESS], timeout_quick=400, timeout_thorough=3000),
             dict(name="c05locks", pkg="c05", test="TestC05Locks", access=[RUN_ACCESS, WORKERS_ACCESS], timeout_quick=400, timeout_thorough=3000),
             dict(name="c05gate", pkg="c05", test="TestC05Gate", access=[RUN_ACCESS, WORKERS_ACCESS], instrument=True, drift=C05_DRIFT,
